@@ -83,7 +83,12 @@ def make_rel(rng, N=8, order=4, vacuum=False, Lambda=0.0, shift=True, fluid=Fals
     rel.data["Kdown3"] = K
     rel.data["alpha"] = 1.3 + 0.3 * np.cos(0.8 * x - 0.5 * y + 0.3 * z)
     if shift:
-        rel.data["betaup3"] = np.array([0.3 + w(2, .3), -0.2 + w(5, .3), 0.25 + w(9, .3)])
+        b = np.array([0.3 + w(2, .3), -0.2 + w(5, .3), 0.25 + w(9, .3)])
+        if shift == "components":
+            # the same shift supplied the way the readers supply it: three scalar keys, `betaup3` not yet in the store
+            rel.data["betax"], rel.data["betay"], rel.data["betaz"] = b[0], b[1], b[2]
+        else:
+            rel.data["betaup3"] = b
     if fluid:
         v = np.array([0.2 + 0.1 * np.sin(x + ph[0]), -0.15 + 0.1 * np.cos(y + ph[1]), 0.1 + 0.05 * np.sin(z + ph[2])])
         rel.data["velx"], rel.data["vely"], rel.data["velz"] = v[0], v[1], v[2]
